@@ -23,7 +23,7 @@ PROPS["C09"] = dict(
 PROPS["C18"] = dict(
     pkg="c18", level="exploration", exhaustive_core=True,
     technique="bounded-exhaustive enumeration + rapid random strings against a regular-expression oracle and a model registry",
-    level_text="Exploration: the accepted set is compared with the documented language (regexp + length bounds) on every string up to length 5 (quick) / 8 (thorough) over a 10-symbol boundary alphabet and on every segment-length composition at total lengths 2..38, where validity can only depend on length and segment structure; the registry is compared with a model set after each block. A rapid state machine repeats registrations across Refresh/Destroy cycles (configurations naming unregistered and ill-formed tags): same tag object, list = registered names. Helper sub types with two segments and with the helper's own main type as first segment; parts building an ill-formed name must be refused. Refused registrations leave no tag behind; an early-rejected Refresh locks nothing. Helper parts with misplaced underscores.",
+    level_text="Exploration: the accepted set is compared with the documented language (regexp + length bounds) on every string up to length 5 (quick) / 8 (thorough) over a 10-symbol boundary alphabet and on every segment-length composition at total lengths 2..38, where validity can only depend on length and segment structure; the registry is compared with a model set after each block. A rapid state machine repeats registrations across Refresh/Destroy cycles (configurations naming unregistered and ill-formed tags): same tag object, list = registered names. Helper sub types with two segments and with the helper's own main type as first segment; parts building an ill-formed name must be refused. Refused registrations leave no tag behind; an early-rejected Refresh locks nothing. Helper parts with misplaced underscores. Neighbours of the accepted character ranges; three-segment helper sub types.",
     level_note="Trusted: Go's regexp package and the harness's model set. Assumes validity depends only on length, alphabet class and underscore structure (random byte/unicode strings probe the rest).",
     rule="strings enumerated over {a z 0 9 _ A - space { `} up to length 5/8, all compositions of 1..38 characters into 1..5 segments with leading/trailing/doubled underscore variants, rapid random byte/unicode/near-language strings and helper-built names; non-trivial = accepted, or rejected although drawn from the right alphabet",
     steps=[
@@ -50,7 +50,7 @@ PROPS["C17"] = dict(
 PROPS["C07"] = dict(
     pkg="c07", level="exploration",
     technique="rapid generation over every field constructor with an expected-tree oracle decoded by encoding/json and a strict RFC 8259 scanner; native fuzzing of the same property",
-    level_text="Exploration: generated events (all constructors, hostile byte-string keys/values, boundary numbers, nesting) are formatted directly and end-to-end; each line must be one strict RFC 8259 object and decode, member by member in order, to the tree the generator expected (exact integers, bit-exact floats, sanitised strings, nulls, structure). Levels include distinct levels sharing a code and level names that need escaping; end to end an earlier event may hold a prefix of the checked event's context-field slice. The reflect zoo contains json.RawMessage values with line feeds; end to end also with enableCaller=false. Named scalar types with their own MarshalJSON/MarshalText; an oversized line before the judged one.",
+    level_text="Exploration: generated events (all constructors, hostile byte-string keys/values, boundary numbers, nesting) are formatted directly and end-to-end; each line must be one strict RFC 8259 object and decode, member by member in order, to the tree the generator expected (exact integers, bit-exact floats, sanitised strings, nulls, structure). Levels include distinct levels sharing a code and level names that need escaping; end to end an earlier event may hold a prefix of the checked event's context-field slice. The reflect zoo contains json.RawMessage values with line feeds; end to end also with enableCaller=false. Named scalar types with their own MarshalJSON/MarshalText; an oversized line before the judged one. Nil array values; object towers of 40-300 levels.",
     level_note="Trusted: the generator's own expectation builder (vk/fieldgen.go), encoding/json's token decoder and the harness's RFC 8259/3629 scanner. Sampled, not exhaustive.",
     rule="events generated from every public field constructor with hostile keys/strings and boundary numbers, formatted by JSONLayout directly and through log.Record + Refresh-built console logger",
     steps=[
@@ -62,7 +62,7 @@ PROPS["C07"] = dict(
 PROPS["C08"] = dict(
     pkg="c08", level="exploration",
     technique="differential testing of TextLayout against JSONLayout tokens over rapid-generated events and widths, with an independently computed header; native fuzzing of the same property",
-    level_text="Exploration: for generated events and widths -5..200 the text line must equal, byte for byte, the line assembled from an independent header (level, millisecond time from calendar fields, documented truncation rule) and the raw JSON member tokens of the same event (quotes dropped exactly for string fields, error texts and non-finite floats); one newline, no raw control byte, no panic for any width; also end-to-end with the width configured through Refresh. Levels include distinct levels sharing a code; end to end an earlier event may hold a prefix of the checked event's context-field slice. Context strings containing the separator; file paths with multi-byte characters.",
+    level_text="Exploration: for generated events and widths -5..200 the text line must equal, byte for byte, the line assembled from an independent header (level, millisecond time from calendar fields, documented truncation rule) and the raw JSON member tokens of the same event (quotes dropped exactly for string fields, error texts and non-finite floats); one newline, no raw control byte, no panic for any width; also end-to-end with the width configured through Refresh. Levels include distinct levels sharing a code; end to end an earlier event may hold a prefix of the checked event's context-field slice. Context strings containing the separator; file paths with multi-byte characters. Nil array values and object towers; the same event through a layout of another width first.",
     level_note="Trusted: JSONLayout's tokens as reference (validated independently in C07), the harness's header/truncation reimplementation, the generator's knowledge of which fields are string-like.",
     rule="C07 event generator x widths -5..200, direct ToBytes and end-to-end through Refresh-configured console TextLayout",
     steps=[
@@ -74,7 +74,7 @@ PROPS["C08"] = dict(
 PROPS["C01"] = dict(
     pkg="c01", level="exploration",
     technique="rapid-generated configurations and event sets checked against a reference routing model; bounded-exhaustive sweep of two-reference configurations",
-    level_text="Exploration: configurations (all logger kinds, range strings in any case/spacing, 1-4 references in any declaration order, equal lower bounds frequent, competing loggers) are refreshed and every entry point plus Record at generated levels is logged; deliveries observed at recording appenders, console stream and files must equal, with multiplicity one, what an independent model of the property text predicts; plus all 8100 two-reference configurations over the built-in levels. Explicit upper bounds may be user levels above MAX (except for the rolling-file logger), and two references of one logger may name the same appender with disjoint explicit ranges (expected deliveries = union). A concurrent step logs the event list from 2-8 goroutines at once; asynchronous loggers also run with the Discard policy after an earlier overflow. The logger may also be configured as root.",
+    level_text="Exploration: configurations (all logger kinds, range strings in any case/spacing, 1-4 references in any declaration order, equal lower bounds frequent, competing loggers) are refreshed and every entry point plus Record at generated levels is logged; deliveries observed at recording appenders, console stream and files must equal, with multiplicity one, what an independent model of the property text predicts; plus all 8100 two-reference configurations over the built-in levels. Explicit upper bounds may be user levels above MAX (except for the rolling-file logger), and two references of one logger may name the same appender with disjoint explicit ranges (expected deliveries = union). A concurrent step logs the event list from 2-8 goroutines at once; asynchronous loggers also run with the Discard policy after an earlier overflow. The logger may also be configured as root. A second level name for WARN's code.",
     level_note="Trusted: the harness's range parser/chaining model (written from the property text) and recording appender. An explicit ~MAX upper bound is generated only where it cannot be told apart from an open end (documented sentinel).",
     rule="generated configurations x all entry points x generated levels; exhaustive two-reference sweep",
     steps=[
@@ -87,7 +87,7 @@ PROPS["C01"] = dict(
 PROPS["C03"] = dict(
     pkg="c03", race=True, level="exploration",
     technique="rapid-generated concurrent workloads with a harness-owned slow sink, self-validating payloads, a concurrent-vs-sequential metamorphic multiset oracle, and the race detector",
-    level_text="Exploration over schedules and inputs: 2-64 goroutines log self-validating events through every synchronous path to console/file/rolling sinks; the console sink consumes bytes slowly in chunks (the harness owns that part of the schedule); every line must be whole and the multiset of concurrently written lines must equal byte-for-byte what the same events produce one at a time; built with -race so that a recycled buffer still being written is a happens-before report even for file sinks. Half of the cases hand every event one shared context-field slice with spare capacity through FieldsFromContext; one path has two loggers with their own File appenders on one file; event timestamps share a few milliseconds. Every event carries control characters that differ per goroutine; lines reach 200 KB; context strings differ per goroutine.",
+    level_text="Exploration over schedules and inputs: 2-64 goroutines log self-validating events through every synchronous path to console/file/rolling sinks; the console sink consumes bytes slowly in chunks (the harness owns that part of the schedule); every line must be whole and the multiset of concurrently written lines must equal byte-for-byte what the same events produce one at a time; built with -race so that a recycled buffer still being written is a happens-before report even for file sinks. Half of the cases hand every event one shared context-field slice with spare capacity through FieldsFromContext; one path has two loggers with their own File appenders on one file; event timestamps share a few milliseconds. Every event carries control characters that differ per goroutine; lines reach 200 KB; context strings differ per goroutine. fastCaller on or off per case.",
     level_note="Interleavings are sampled, not enumerated. Trusted: Go's race detector and the harness sink. File sinks cannot be slowed in-process; for them the race detector and the multiset oracle carry the check.",
     rule="generated (G, events, layout, path, bufferCap, payload sizes, sink delay pattern)",
     steps=[
@@ -134,7 +134,7 @@ PROPS["C04"] = dict(
 PROPS["C06"] = dict(
     pkg="c06", race=True, level="exploration",
     technique="rapid state-machine histories plus bounded-exhaustive short histories from a full buffer, with a harness-owned worker schedule, against an executable queue model per overflow policy",
-    level_text="Exploration over histories: with the worker parked in a gated appender, every generated history (and every history of length <= 4 quick / <= 6 thorough from a full buffer) must deliver exactly the sequence the policy's queue model predicts (Discard drops the arriving item, DiscardOldest the head, Block waits); a discard-policy call must return while the gate stays shut for good, a Block call must not return before the worker takes an item and must return after; randomised multi-producer runs check per-producer order. Histories also contain below-level events and empty raw writes; in the concurrent DiscardOldest run what survives of one producer must be a gap-free run ending with its last item. Large raw writes; a log call issued while another goroutine is inside Stop (appender stalled, buffer with room) returns under the two discard policies. PANIC-level events arriving at a full buffer under Discard. Explicit Block on the asynchronous rolling-file logger.",
+    level_text="Exploration over histories: with the worker parked in a gated appender, every generated history (and every history of length <= 4 quick / <= 6 thorough from a full buffer) must deliver exactly the sequence the policy's queue model predicts (Discard drops the arriving item, DiscardOldest the head, Block waits); a discard-policy call must return while the gate stays shut for good, a Block call must not return before the worker takes an item and must return after; randomised multi-producer runs check per-producer order. Histories also contain below-level events and empty raw writes; in the concurrent DiscardOldest run what survives of one producer must be a gap-free run ending with its last item. Large raw writes; a log call issued while another goroutine is inside Stop (appender stalled, buffer with room) returns under the two discard policies. PANIC-level events arriving at a full buffer under Discard. Explicit Block on the asynchronous rolling-file logger. Buffer sizes up to 1000 in the single-stepped histories.",
     level_note="Trusted: the harness queue model; 'does not block' is judged only while the gate is never released (definitive), 'blocks' by a 30 ms grace a correct implementation cannot fail. Domain B samples schedules.",
     rule="generated and enumerated histories",
     steps=[
@@ -150,7 +150,7 @@ PROPS["C06"] = dict(
 PROPS["C05"] = dict(
     pkg="c05", level="exploration",
     technique="rapid-generated stop scenarios with a harness-owned worker state (gated/slow appenders) and occupancy, sinks read back at the instant the call returns, /proc/self/fd scanning; real-time rolling-appender runs",
-    level_text="Exploration over configurations, occupancies and worker states: the harness fills the async buffer to a generated occupancy while the worker is parked in a gate (or slowed, or idle), issues Stop/Destroy, opens the gate a generated delay later and requires the call to return and every accepted item to be present in recorder, file, rolling file and console at that instant; every Refresh-reachable logger kind (incl. rolling-file async) is destroyed right after a burst; descriptors into the log directory must be gone afterwards, and a running 1 s rolling appender must never hold more than two. Submissions include empty raw writes; the first file-owning appender may be named like its logger. Further steps: a file appender on /dev/full (one descriptor while running, none after Stop, however many writes fail) and Destroy after a Refresh that failed late (everything accepted is on the console or in the recorder exactly once when Destroy returns, nothing arrives later, no descriptor stays open). A backlog that needs about 4 s is handed over before Stop/Destroy returns.",
+    level_text="Exploration over configurations, occupancies and worker states: the harness fills the async buffer to a generated occupancy while the worker is parked in a gate (or slowed, or idle), issues Stop/Destroy, opens the gate a generated delay later and requires the call to return and every accepted item to be present in recorder, file, rolling file and console at that instant; every Refresh-reachable logger kind (incl. rolling-file async) is destroyed right after a burst; descriptors into the log directory must be gone afterwards, and a running 1 s rolling appender must never hold more than two. Submissions include empty raw writes; the first file-owning appender may be named like its logger. Further steps: a file appender on /dev/full (one descriptor while running, none after Stop, however many writes fail) and Destroy after a Refresh that failed late (everything accepted is on the console or in the recorder exactly once when Destroy returns, nothing arrives later, no descriptor stays open). A backlog that needs about 4 s is handed over before Stop/Destroy returns. The logger under test may be the configured root.",
     level_note="Liveness is judged as 'returned within 30 s + drain time once nothing is held back'. Trusted: /proc/self/fd as the descriptor oracle, the harness gate. Real-time runs assume the wall clock does not step.",
     rule="generated stop scenarios; real-time rolling runs",
     steps=[
@@ -166,7 +166,7 @@ PROPS["C05"] = dict(
 PROPS["C10"] = dict(
     pkg="c10", level="exploration",
     technique="rapid state machine over hook settings, logger configurations and entry-point calls with counting hooks and a level-range model",
-    level_text="Exploration: sequences of hook set/unset, logger (re)configuration (built-in console, Refresh-built sync/async with generated ranges) and calls of all 15 entry points with fresh contexts; counting hooks and a counting lazy generator must run exactly once with the caller's context iff the model says the level is enabled, and the record (event fields and both layouts' lines) must carry the hooks' values with context fields ahead of call fields. The timestamp hook repeats the same instant in different zones over consecutive events. The timestamp hook sometimes returns the zero time; the concurrent step shares one context-field slice with spare capacity and checks the formatted lines. Context and call fields may share a key. Appender references with a higher floor than the logger's range.",
+    level_text="Exploration: sequences of hook set/unset, logger (re)configuration (built-in console, Refresh-built sync/async with generated ranges) and calls of all 15 entry points with fresh contexts; counting hooks and a counting lazy generator must run exactly once with the caller's context iff the model says the level is enabled, and the record (event fields and both layouts' lines) must carry the hooks' values with context fields ahead of call fields. The timestamp hook repeats the same instant in different zones over consecutive events. The timestamp hook sometimes returns the zero time; the concurrent step shares one context-field slice with spare capacity and checks the formatted lines. Context and call fields may share a key. Appender references with a higher floor than the logger's range. Hooks that answer with nothing; the concurrent step also through an asynchronous logger.",
     level_note="Trusted: the harness's level-range model and recording appender. Wall-clock timestamps (hook unset) are accepted within the call window +-1 ms.",
     rule="generated action sequences",
     steps=[
@@ -178,7 +178,7 @@ PROPS["C10"] = dict(
 PROPS["C16"] = dict(
     pkg="c16", level="exploration",
     technique="rapid state-machine sequences plus bounded-exhaustive short sequences over the lifecycle API against a three-state model (unconfigured / live / failed-live)",
-    level_text="Exploration over histories: generated sequences (length <= 8, tail to 16) and every sequence up to length 3 (quick) / 5 (thorough) over Refresh(valid A/B, invalid early/late), Destroy, tag logging, handle writes, RegisterTag and GetLogger; after each step the model's expectation is checked (no panic, no block within 10 s, console vs configured appender routing, refusal of registration and of a second Refresh while live, Destroy idempotent), and every history ends with Destroy + Refresh(valid) that must route as configured. Registration is tried through RegisterTag and the app/biz/rpc helpers. 'root' is among the handle names. I/O start failures of asynchronous rolling loggers; asynchronous root in the second configuration.",
+    level_text="Exploration over histories: generated sequences (length <= 8, tail to 16) and every sequence up to length 3 (quick) / 5 (thorough) over Refresh(valid A/B, invalid early/late), Destroy, tag logging, handle writes, RegisterTag and GetLogger; after each step the model's expectation is checked (no panic, no block within 10 s, console vs configured appender routing, refusal of registration and of a second Refresh while live, Destroy idempotent), and every history ends with Destroy + Refresh(valid) that must route as configured. Registration is tried through RegisterTag and the app/biz/rpc helpers. 'root' is among the handle names. I/O start failures of asynchronous rolling loggers; asynchronous root in the second configuration. Logging through a root-served tag and through tags/handles obtained in mid-history.",
     level_note="In the failed-live state (a Refresh that failed after it had begun to apply) only 'no panic, no block' is demanded of logging; Refresh/registration outcomes there are not judged because the property does not define them. Trusted: the model and recording appenders.",
     rule="generated and enumerated operation sequences",
     steps=[
@@ -205,7 +205,7 @@ PROPS["C11"] = dict(
 PROPS["C14"] = dict(
     pkg="c14", level="exploration",
     technique="rapid-generated directory populations checked against an exact expected-survivor oracle through a synchronous retention hook; real 1 s rotations for the un-hooked path",
-    level_text="Exploration over directory states and age configurations: populations mixing own rotated files, near misses, prefix-sharing foreign files, sibling-appender files, unrelated files and directories with modification times on both sides of the cut-off are cleaned through the build-tag-guarded synchronous hook; survivors must be exactly everything minus own files (name.<14 digits>) older than the maximum age (+-1 min tolerance), and the files being written must survive; the asynchronous path is exercised with real 1 s rotations. A scan while the directory is away may precede the judged scan; the real-rotation runs include a Refresh-built RollingFile logger (separate=false) with foreign name.wf.<ts> files. The process lives in a synthetic zone that changed its UTC offset three days ago; FileDir is also spelled with trailing/doubled slashes, /./ and ./relative. Symbolic-link directory; case-variant foreign names. Rotation intervals from 10 minutes to a week.",
+    level_text="Exploration over directory states and age configurations: populations mixing own rotated files, near misses, prefix-sharing foreign files, sibling-appender files, unrelated files and directories with modification times on both sides of the cut-off are cleaned through the build-tag-guarded synchronous hook; survivors must be exactly everything minus own files (name.<14 digits>) older than the maximum age (+-1 min tolerance), and the files being written must survive; the asynchronous path is exercised with real 1 s rotations. A scan while the directory is away may precede the judged scan; the real-rotation runs include a Refresh-built RollingFile logger (separate=false) with foreign name.wf.<ts> files. The process lives in a synthetic zone that changed its UTC offset three days ago; FileDir is also spelled with trailing/doubled slashes, /./ and ./relative. Symbolic-link directory; case-variant foreign names. Rotation intervals from 10 minutes to a week. Entries that are not regular files; an earlier appender's file on the same directory and name; WARN events through the separate file.",
     level_note="Uses the verif hook VerifClearExpiredFiles (add-only, build tag verif). Modification times are set with os.Chtimes; entries within one minute of the cut-off may go either way.",
     rule="generated populations; real rotations",
     steps=[
@@ -217,7 +217,7 @@ PROPS["C14"] = dict(
 PROPS["C13"] = dict(
     pkg="c13", race=True, level="exploration",
     technique="rapid-generated real-time time-lines (writers, boundary-aimed bursts, restarts) against an invariant over the measured write history and the resulting files; race detector",
-    level_text="Exploration over schedules and histories in real time: the rotation interval is 1-2 s (public TimeRotation), 8 generated time-lines run in parallel per case with 1-16 writers whose writes are aimed at real interval boundaries, idle intervals and stop/start cycles inside one second; afterwards every file must be named name.<14 digits>, the multiset of well-formed self-describing records must equal what was written (nothing lost, duplicated, torn or truncated), no record may sit in a file named later than the write's completion, and with one writer a write after a boundary must be in that interval's file; built with -race. Edge scenarios: appenders restarted in a tight loop while a boundary passes, then written to once; an appender idle across whole intervals, then 2-12 writers spinning into the same resume instant with long bursts. The process runs in a non-UTC local zone chosen by the seed; a third of the writes go through Append with event times that are not the wall clock. Zones are fixed per step (time-lines west of UTC with maximum ages of 1-3 h); one step lives through changes of the local zone's UTC offset.",
+    level_text="Exploration over schedules and histories in real time: the rotation interval is 1-2 s (public TimeRotation), 8 generated time-lines run in parallel per case with 1-16 writers whose writes are aimed at real interval boundaries, idle intervals and stop/start cycles inside one second; afterwards every file must be named name.<14 digits>, the multiset of well-formed self-describing records must equal what was written (nothing lost, duplicated, torn or truncated), no record may sit in a file named later than the write's completion, and with one writer a write after a boundary must be in that interval's file; built with -race. Edge scenarios: appenders restarted in a tight loop while a boundary passes, then written to once; an appender idle across whole intervals, then 2-12 writers spinning into the same resume instant with long bursts. The process runs in a non-UTC local zone chosen by the seed; a third of the writes go through Append with event times that are not the wall clock. Zones are fixed per step (time-lines west of UTC with maximum ages of 1-3 h); one step lives through changes of the local zone's UTC offset. File names holding digits and time-layout tokens.",
     level_note="Interleavings and boundary hits are sampled; a writer cannot be frozen between loading the file pointer and writing. Timestamps are compared with a 5 ms margin; assumes the wall clock does not step.",
     rule="generated real-time time-lines, 8 per case in parallel",
     steps=[
@@ -231,7 +231,7 @@ PROPS["C13"] = dict(
 PROPS["C19"] = dict(
     pkg="c19", level="fault_enumeration",
     technique="rapid-generated fault time-lines (directory renamed away/restored around real 1 s boundaries and writes) with a conservation oracle over the files after restoration; generated static I/O faults per appender and call path",
-    level_text="Fault enumeration over generated placements: outages of the log directory (rename away / restore) are placed before, across and between real one-second boundaries while 1-4 writers write through the bare rolling appender or a Refresh-built logger; every call must return without panic, after restoration the files must hold every record exactly once, with one writer a write after the first boundary following restoration must be in a file created at/after it, no file may be named for a boundary that fell into the outage and was followed by a write inside it (creation is retried at the next boundary, not in mid-interval), and no call that began 1.5 s or more before the end of an outage may return only after it; a second generator aims 2-12 spinning goroutines at every boundary of time-lines whose outages cover most boundaries, so that the rotation decision is taken by several callers at once while file creation fails; static faults (closed, never opened, /dev/full, missing directory, failing/short console stream) are driven through Write/Append and log calls under a 10 s watchdog. Outages may leave a regular file at the directory's path; a companion rolling appender with a longer interval may share the directory (one time-line per batch is aligned so that the outage covers a boundary both share): its failed rotation must not keep the main appender from retrying at its own next boundary. One time-line per batch has a 3 s interval and a sparse writer; in half of the batches one goes through an asynchronous Block root logger that flooders keep saturated around every boundary. 3 s intervals with a deterministic mid-interval write; a rotation stalled past the next boundary must not restore its older interval.",
+    level_text="Fault enumeration over generated placements: outages of the log directory (rename away / restore) are placed before, across and between real one-second boundaries while 1-4 writers write through the bare rolling appender or a Refresh-built logger; every call must return without panic, after restoration the files must hold every record exactly once, with one writer a write after the first boundary following restoration must be in a file created at/after it, no file may be named for a boundary that fell into the outage and was followed by a write inside it (creation is retried at the next boundary, not in mid-interval), and no call that began 1.5 s or more before the end of an outage may return only after it; a second generator aims 2-12 spinning goroutines at every boundary of time-lines whose outages cover most boundaries, so that the rotation decision is taken by several callers at once while file creation fails; static faults (closed, never opened, /dev/full, missing directory, failing/short console stream) are driven through Write/Append and log calls under a 10 s watchdog. Outages may leave a regular file at the directory's path; a companion rolling appender with a longer interval may share the directory (one time-line per batch is aligned so that the outage covers a boundary both share): its failed rotation must not keep the main appender from retrying at its own next boundary. One time-line per batch has a 3 s interval and a sparse writer; in half of the batches one goes through an asynchronous Block root logger that flooders keep saturated around every boundary. 3 s intervals with a deterministic mid-interval write; a rotation stalled past the next boundary must not restore its older interval. The RollingFile logger kind; outages that end with the directory link pointing somewhere new.",
     level_note="Fault placements are generated, not exhaustively enumerated (the space is continuous in time). Outage by rename(2); assumes the wall clock does not step. The retry clause is judged for single-writer time-lines only (with several writers the rotating goroutine's brief window is legitimate).",
     rule="generated fault time-lines, 6 per case in parallel; boundary-race time-lines (goroutines spinning into every boundary), one per case; static fault x path cases",
     steps=[
@@ -245,7 +245,7 @@ PROPS["C19"] = dict(
 PROPS["C20"] = dict(
     pkg="c20", level="fault_enumeration",
     technique="rapid-generated crash points: a re-executed child process logs and acknowledges returned calls on a pipe, is SIGKILLed or exits at the K-th acknowledgement, and the parent checks every acknowledged line in the target",
-    level_text="Fault enumeration over generated crash points: for each synchronous appender kind (File, RollingFile, Console on an inherited descriptor; via Logger with appender-level or logger-level layout and via the File/RollingFile/Console logger kinds), both layouts, 1-4 goroutines and N calls, the child is killed (SIGKILL) or exits (status 0/3) right after the K-th acknowledged call; every call acknowledged before death must have its complete self-validating line in the target exactly once. Rolling kinds are also run with 2-8 goroutines logging from 4 ms before to 25 ms after a real rotation boundary and the crash after the last call (returned calls reported in one write). Further kinds: two loggers with their own File appenders on one file; File / RollingFile appender values stopped and started again before the acknowledged calls. Raw writes through a named logger's handle with and without trailing line break; calls with a field whose encoding panics (a call that returns all the same owes its line). Kinds console+file and default-after-destroy. File kinds may begin with a transient write failure.",
+    level_text="Fault enumeration over generated crash points: for each synchronous appender kind (File, RollingFile, Console on an inherited descriptor; via Logger with appender-level or logger-level layout and via the File/RollingFile/Console logger kinds), both layouts, 1-4 goroutines and N calls, the child is killed (SIGKILL) or exits (status 0/3) right after the K-th acknowledged call; every call acknowledged before death must have its complete self-validating line in the target exactly once. Rolling kinds are also run with 2-8 goroutines logging from 4 ms before to 25 ms after a real rotation boundary and the crash after the last call (returned calls reported in one write). Further kinds: two loggers with their own File appenders on one file; File / RollingFile appender values stopped and started again before the acknowledged calls. Raw writes through a named logger's handle with and without trailing line break; calls with a field whose encoding panics (a call that returns all the same owes its line). Kinds console+file and default-after-destroy. File kinds may begin with a transient write failure. The separate warn file as a crash target; 20 KB lines.",
     level_note="Crash points are sampled from 1..G*N, not all enumerated. Process-crash write-through only (no fsync / power-loss claim). Trusted: the acknowledgement pipe (one direct write(2) per returned call).",
     rule="generated crash points (and boundary-straddling runs of the rolling kinds), 8 children per case",
     steps=[
@@ -256,7 +256,7 @@ PROPS["C20"] = dict(
 PROPS["C15"] = dict(
     pkg="c15", level="exploration",
     technique="grammar-based generation of configuration trees with a probe plugin and a resolved-value model; metamorphic re-rendering (key spelling, inline expressions, ${} indirection); single-fault injection; mutation-based totality search",
-    level_text="Exploration over configurations: valid-by-construction configuration trees over every registered logger/appender/layout type and a Probe appender with one attribute of every injectable kind and one element of every shape are rendered three ways (two random renderings with camel/kebab/snake spelling, flat vs inline 'name!' expressions at any depth and ${} indirection, one plain) and must refresh, resolve to the declared values (configured, else default), route a test event to the referenced appenders/files/console and behave identically across renderings; configurations with exactly one injected fault must make Refresh return an error; randomly mutated configurations must make Refresh return (nil or error) without panic. Element lists reach two-digit indices; dangling references include names that only resemble an appender's. Recorder names with letters outside ASCII; application-registered rotation names (upper case included). Padded placeholders. Part of the probe plugin's fields sit in an embedded package-private base struct.",
+    level_text="Exploration over configurations: valid-by-construction configuration trees over every registered logger/appender/layout type and a Probe appender with one attribute of every injectable kind and one element of every shape are rendered three ways (two random renderings with camel/kebab/snake spelling, flat vs inline 'name!' expressions at any depth and ${} indirection, one plain) and must refresh, resolve to the declared values (configured, else default), route a test event to the referenced appenders/files/console and behave identically across renderings; configurations with exactly one injected fault must make Refresh return an error; randomly mutated configurations must make Refresh return (nil or error) without panic. Element lists reach two-digit indices; dangling references include names that only resemble an appender's. Recorder names with letters outside ASCII; application-registered rotation names (upper case included). Padded placeholders. Part of the probe plugin's fields sit in an embedded package-private base struct. Every buffer-full policy and none; configurations without any logger; logger names on both sides of root.",
     level_note="Trusted: the harness's resolved-value model and Probe plugin. Names of appenders/loggers are lower-case alphanumeric (a name is a key segment and is camel-cased); values with leading/trailing blanks and the literals [] {} <nil> are not generated as attribute values.",
     rule="generated configuration trees x renderings; single-fault injection; mutations",
     steps=[
